@@ -1,9 +1,26 @@
 import Pcore.Proofs.LatSound
+import Pcore.Proofs.LatTransAll
 set_option linter.unusedSimpArgs false
 set_option linter.unusedVariables false
 /-! C01 main lemma: all receivers put together, by induction on the summed weight. -/
 namespace Pcore.Lat
 variable (cfg : Cfg)
+
+/-- `Type[X] ⊒ Type[Y]` and `u ∈ Type[Y]`: soundness is transitivity `X ⊒ Y ⊒ u` (C03, stage-1 fragment) -/
+theorem recv_typ (hl : ∀ s, (cfg.lower s).length = s.length) (x b : Ty) (v : Val) (H : Hyp cfg (.typ x) b v)
+    (h : asgRecv cfg false (.typ x) b = true) (hi : inst cfg false b v = true) : inst cfg false (.typ x) v = true := by
+  unfold asgRecv at h
+  cases b <;> simp only [] at h <;> (first | contradiction | skip)
+  rename_i y
+  have fa := H.fa; unfold Ty.Frag at fa
+  have fb := H.fb; unfold Ty.Frag at fb
+  have wb := H.wb; unfold Ty.WF at wb
+  unfold inst at hi ⊢
+  cases v <;> simp only [] at hi ⊢ <;> (first | contradiction | skip)
+  rename_i u
+  cases H.tv with
+  | typ _ hu hwu =>
+    exact trans_all cfg false hl _ x y u (Nat.le_refl _) ⟨fa, fb, hu, wb, hwu⟩ h hi
 
 /-- the receiver's rule is sound (for a right-hand side that `GuardedIsAssignable` hands to the receiver) -/
 theorem recv_sound (hl : ∀ s, (cfg.lower s).length = s.length) (n : Nat) (ih : Sound cfg n) (a b : Ty) (v : Val)
@@ -38,7 +55,7 @@ theorem recv_sound (hl : ∀ s, (cfg.lower s).length = s.length) (n : Nat) (ih :
   | variant as => exact recv_variant cfg n ih as b v hw H h hi
   | optional x => exact recv_optional cfg n ih x b v hw H h hi
   | notUndef x => exact recv_notUndef cfg n ih x b v hw H h hi
-  | typ x => have := H.fa; unfold Ty.Frag at this; exact absurd this id
+  | typ x => exact recv_typ cfg hl x b v H h hi
   | sensitive x => exact recv_sensitive cfg n ih x b v hw H h hi
   | iterable x => have := H.fa; unfold Ty.Frag at this; exact absurd this id
   | object p => exact recv_object cfg p b v h hi
@@ -79,9 +96,9 @@ theorem sound_all (hl : ∀ s, (cfg.lower s).length = s.length) : ∀ n, Sound c
         · have hv : v = .undef := by cases v <;> simp at hb; rfl
           subst hv
           exact ih a .undef .undef (by simp [Ty.w]; omega)
-            ⟨H.fa, by unfold Ty.Frag; trivial, H.wa, by unfold Ty.WF; trivial, by unfold Ty.US; trivial, H.ok⟩ h1
+            ⟨H.fa, by unfold Ty.Frag; trivial, H.wa, by unfold Ty.WF; trivial, by unfold Ty.US; trivial, H.ok, H.tv⟩ h1
             (by unfold inst; rfl)
-        · exact ih a ot v (by omega) ⟨H.fa, fb, H.wa, wb, us, H.ok⟩ h2 hb
+        · exact ih a ot v (by omega) ⟨H.fa, fb, H.wa, wb, us, H.ok, H.tv⟩ h2 hb
     | variant bs =>
       rw [asg_variant_r] at ha
       simp only [Bool.or_eq_true] at ha
@@ -94,7 +111,7 @@ theorem sound_all (hl : ∀ s, (cfg.lower s).length = s.length) : ∀ n, Sound c
         unfold inst at hb
         rw [instAny_iff] at hb
         obtain ⟨t, hm, ht⟩ := hb
-        exact ih a t v (by have := Ty.w_lt_wl hm; omega) ⟨H.fa, fb t hm, H.wa, wb t hm, us t hm, H.ok⟩
+        exact ih a t v (by have := Ty.w_lt_wl hm; omega) ⟨H.fa, fb t hm, H.wa, wb t hm, us t hm, H.ok, H.tv⟩
           ((asgAllR_iff cfg false a bs).1 ha t hm) ht
     | notUndef nt =>
       rw [asg_notUndef_r] at ha
@@ -113,7 +130,7 @@ theorem sound_all (hl : ∀ s, (cfg.lower s).length = s.length) : ∀ n, Sound c
           simp only [Ty.w] at hw
           unfold inst at hb
           simp only [Bool.and_eq_true] at hb
-          exact ih a nt v (by omega) ⟨H.fa, fb, H.wa, wb, us, H.ok⟩ ha hb.2
+          exact ih a nt v (by omega) ⟨H.fa, fb, H.wa, wb, us, H.ok, H.tv⟩ ha hb.2
     | _ => exact plain rfl
 
 end Pcore.Lat
